@@ -43,7 +43,26 @@ CLAIMS = {
             "Props/C11.lean"),
 }
 
-READY = ["C01", "C02", "C03"]   # properties whose Props file holds real theorems
+READY = ["C01", "C02", "C03", "C13", "C14", "C15", "C20"]   # properties whose Props file holds real theorems
+CLAIMS.update({
+    "C13": ("Lean theorems over exact rationals: the delivery tick ceil(a*tps) is never before the arrival and is the first such tick; it is monotone in the arrival; "
+            "with rows in arrival order each tick returns exactly the pipelines whose delivery tick it is, in file order, exactly once, none after the end; the gentrace "
+            "round trip k/tps -> k. Tie without tolerance: exhaustive on-grid arrivals (k < 3000/10000) for 10/100/1000 ticks/s and sampled k to 3e6 for 13 tick rates, written "
+            "as plain decimals and as gentrace writes them, off-grid decimals, random multi-pipeline replays, gentrace round trips through the CLI. The unchanged code violates "
+            "the property by float rounding (known findings D5a/D5b, not repairable without changing tests/regression); any other discrepancy is a violation.",
+            "Props/C13.lean; oracle = the decimal written in the file (DESIGN 7/C13)"),
+    "C14": ("Lean theorems on a row-level model of csv_io.py: reading what was written yields the same pipelines for every list of well-formed pipelines (any DAG, explicit 0 vs unset "
+            "memory), read->write reproduces the rows, each of the six format breaches is refused. Tie: random workloads through the real CSVWorkloadWriter/Reader (structure and rows, "
+            "also against the model), malformed files.", "Props/C14.lean; cell text (repr of floats, csv quoting) is modelled as opaque values"),
+    "C15": ("Lean theorems for every draw stream: exactly num_pipelines per event with consecutive fresh ids, query => one operator, otherwise a chain of max(1, floor(draw)) operators "
+            "whose first is the I/O-heavy prototype, gap = floor(draw) or the mean, no event while waiting; the prototype table extracted from the source is the documented one; the "
+            "if-chain equals a threshold count and is monotone (coupling form of the cpu_io_ratio clause). Tie: every draw of the real generator recorded by a proxy rng and replayed "
+            "into the model; structure clauses on every emitted pipeline; paired-seed coupling test. PARTIAL: averages and class frequencies are statements about numpy, sampled "
+            "(5 sigma) and labelled as tests.", "Props/C15.lean"),
+    "C20": ("Lean theorems over exact rationals: snap never moves up, by less than a tick, fixes the grid, is idempotent; jitter's output is a sorted permutation with each arrival moved "
+            "by its draw in [0, delta]; sample seeds start+i are distinct. Tie: files through `eudoxia tools snap|jitter` (CLI) compared in exact decimal arithmetic; seed wiring of "
+            "sensitivity-sample captured with a stub generator.", "Props/C20.lean; where 1/tps has no finite decimal expansion the written value is compared as the correctly rounded float"),
+})
 CLAIMS = {k: v for k, v in CLAIMS.items() if k in READY}
 
 checks = []
